@@ -335,6 +335,10 @@ class Session:
             leaked = [x for x in diff if x.endswith("/*") and any("/*" in s[1] for s in (snap1.get(x), snap2.get(x)) if s)]
             detail["changed"] = diff[:20]
             detail["leaked_placeholders"] = leaked[:20]
+            # nothing appeared or vanished, every difference is an alias going from unresolved to resolved
+            detail["only_resolutions"] = bool(diff) and all(
+                snap1.get(k) and snap2.get(k) and not snap1[k][0] and snap2[k][0] for k in diff
+            )
             suffix = ":late-wildcard-expansion" if late else ":leaked-placeholder" if leaked else ""
             note = (f"; wildcard imports expanded only by the second call: {late}" if late else "") + (
                 f"; placeholder copies wrapped again by the second call: {leaked[:3]}" if leaked and not late else ""
@@ -489,6 +493,10 @@ def _second_expansion_pass_explains(case, d) -> bool:
     changed = d.get("changed") or []
     loaded = set(d.get("loaded_by_first_call") or ())
     candidates = [k for k in changed if k.split(".")[0] in loaded]
+    if not loaded and d.get("only_resolutions"):
+        # second variant: same unresolved set, same aliases; the next call's expansion pass merely dereferences (and so
+        # resolves) aliases that the resolution loop had skipped (implicit=False) or could not reach before
+        candidates = list(changed)
     if idx is None or idx >= len(steps) or steps[idx][0] != "resolve" or not candidates:
         return False
     session = Session(case)
@@ -503,6 +511,8 @@ def _second_expansion_pass_explains(case, d) -> bool:
             for module in list(session.loader.modules_collection.members.values()):
                 session.loader.expand_wildcards(module, external=external)
             after, _ = session.snapshot()
+        if not loaded:
+            return all(before.get(k) != after.get(k) for k in candidates)
         return any(before.get(k) != after.get(k) for k in candidates)
     except (Exception, CaseTimeout):  # noqa: BLE001
         return False
@@ -521,7 +531,9 @@ def _is_late_expansion(case, fail: Fail) -> bool:
     looking the source of every late wildcard up there."""
     d = fail.detail or {}
     sources = d.get("late_sources") or {}
-    if fail.clause == "fixpoint" and fail.kind in ("alias-state-changes", "unresolved-set-differs") and d.get("loaded_by_first_call"):
+    if fail.clause == "fixpoint" and fail.kind in ("alias-state-changes", "unresolved-set-differs") and (
+        d.get("loaded_by_first_call") or (fail.kind == "alias-state-changes" and d.get("only_resolutions"))
+    ):
         return _second_expansion_pass_explains(case, d)
     if not (fail.clause == "fixpoint" and fail.kind.endswith(":late-wildcard-expansion") and sources):
         return False
